@@ -27,7 +27,7 @@ REQUIRED_REACH = ["_ensemble.py:EnsembleForecaster._predict", "_pipeline.py:Tran
                   "_pipeline.py:TransformedTargetForecaster._predict", "_pipeline.py:TransformedTargetForecaster.update",
                   "_multiplexer.py:MultiplexForecaster._set_forecaster", "_stack.py:StackingForecaster.fit",
                   "_meta.py:_HeterogenousEnsembleForecaster._fit_forecasters"]
-REQUIRED_MONITORS = ["pipe.fit-levels", "pipe.inverse-chain", "pipe.update-levels", "stack.holdout", "stack.members-unseen",
+REQUIRED_MONITORS = ["multiplex.delegation", "pipe.fit-levels", "pipe.inverse-chain", "pipe.update-levels", "stack.holdout", "stack.members-unseen",
                      "ref.fit-predict", "ref.after-update", "members.cloned"]
 NOT_COVERED = ["OnlineEnsembleForecaster's weighting algorithms (only uniform weights are compared with the mean of the members)",
                "exogenous data inside composites"]
@@ -51,6 +51,14 @@ def cases(tier, seed):
         yield {"kind": "stack-spy", "members": int(rng.integers(2, 4)), "n": int(rng.integers(12, 30)), "off": int(rng.choice([0, 4, -9, 500])),
                "fh": FHS[int(rng.integers(0, len(FHS)))], "abs": bool(rng.random() < 0.5), "dseed": int(rng.integers(0, 2 ** 31)),
                "updates": [[bool(rng.random() < 0.5), int(rng.integers(1, 4))] for _ in range(int(rng.integers(0, 3)))]}
+    MUX_MEMBERS = [["naive", {"strategy": "last"}], ["naive", {"strategy": "mean", "window_length": 4}], ["naive", {"strategy": "drift"}], ["poly", {"degree": 1}],
+                   ["theta", {"sp": 1}], ["theta", {"sp": 4}], ["es", {"trend": "add"}], ["naive", {"strategy": "last", "sp": 3}]]
+    for i in range(n_stack):
+        k = int(rng.integers(2, 4))
+        yield {"kind": "mux", "members": [MUX_MEMBERS[int(rng.integers(0, len(MUX_MEMBERS)))] for _ in range(k)], "selected": int(rng.integers(0, k)),
+               "n": int(rng.integers(24, 50)), "off": int(rng.choice([0, 10, -9, 500])), "fh": FHS[int(rng.integers(0, len(FHS)))],
+               "updates": [[bool(rng.random() < 0.5), int(rng.integers(1, 4))] for _ in range(int(rng.integers(0, 3)))],
+               "alpha": [0.05, 0.2, 0.5, [0.05, 0.2], 0.01][int(rng.integers(0, 5))], "dseed": int(rng.integers(0, 2 ** 31))}
     for i in range(n_ref):
         spec = None
         for _ in range(20):
@@ -75,7 +83,79 @@ def run_case(case, ctx):
         return _run_pipe_spy(case, ctx)
     if case["kind"] == "stack-spy":
         return _run_stack_spy(case, ctx)
+    if case["kind"] == "mux":
+        return _run_mux(case, ctx)
     return _run_ref(case, ctx)
+
+
+# ---------------------------------------------------------------------------------
+# the multiplexer behaves exactly like its selected member: every public call, with every argument, same result or same refusal
+# ---------------------------------------------------------------------------------
+def _outcome(fn):
+    try:
+        return ("ok", fn())
+    except Exception as e:  # noqa
+        return ("raised", type(e).__name__)
+
+
+def _flat(o):
+    """result of a forecaster call as nested lists of floats / labels"""
+    if isinstance(o, tuple):
+        return ["tuple"] + [_flat(x) for x in o]
+    if isinstance(o, list):
+        return ["list"] + [_flat(x) for x in o]
+    if isinstance(o, pd.DataFrame):
+        return ["frame", [str(c) for c in o.columns], [int(v) for v in o.index], np.asarray(o, dtype=float).round(9).tolist()]
+    if isinstance(o, pd.Series):
+        return ["series", [int(v) for v in o.index], np.asarray(o, dtype=float).round(9).tolist()]
+    if isinstance(o, (float, np.floating)):
+        return round(float(o), 9)
+    return repr(type(o).__name__)
+
+
+def _run_mux(case, ctx):
+    from sktime.forecasting.compose import MultiplexForecaster
+    rng = np.random.default_rng([case["dseed"], 909])
+    n, off, fh = case["n"], case["off"], case["fh"]
+    total = n + sum(u[1] for u in case["updates"]) + max(fh) + 2
+    full = zoo.make_series(rng, total, positive=True, off=off, kind="seasonal")
+    y = full.iloc[:n]
+    sel = case["selected"]
+    mux = MultiplexForecaster([("m%d" % i, zoo.build(s)) for i, s in enumerate(case["members"])], selected_forecaster="m%d" % sel)
+    direct = zoo.build(case["members"][sel])
+    a, b = _outcome(lambda: mux.fit(y.copy(), fh=fh)), _outcome(lambda: direct.fit(y.copy(), fh=fh))
+    if a[0] != b[0] or a[0] == "raised":
+        ctx.check("multiplex.delegation", a == b or (a[0] == b[0] == "raised"), "multiplex:fit-outcome-differs-from-selected-member", "fit succeeds for one and fails for the other", mux=a[1] if a[0] == "raised" else "ok",
+                  member=b[1] if b[0] == "raised" else "ok")
+        return
+    name = case["members"][sel][0]
+
+    def compare(what, f_mux, f_dir):
+        a, b = _outcome(f_mux), _outcome(f_dir)
+        same = a[0] == b[0] and (a[1] == b[1] if a[0] == "raised" else _flat(a[1]) == _flat(b[1]))
+        ctx.check("multiplex.delegation", same, "multiplex:%s-differs-from-selected-member" % what,
+                  "the multiplexer's %s is not that of its selected member" % what, member=name, multiplexer=(a[1] if a[0] == "raised" else str(_flat(a[1]))[:200]),
+                  selected=(b[1] if b[0] == "raised" else str(_flat(b[1]))[:200]))
+    alpha = case["alpha"]
+    pos = n
+    for step in range(len(case["updates"]) + 1):
+        compare("predict", lambda: mux.predict(fh), lambda: direct.predict(fh))
+        compare("prediction-intervals", lambda: mux.predict(fh, return_pred_int=True, alpha=alpha), lambda: direct.predict(fh, return_pred_int=True, alpha=alpha))
+        compare("cutoff", lambda: float(mux.cutoff), lambda: float(direct.cutoff))
+        yt = full.iloc[pos:pos + max(fh)]
+        compare("score", lambda: mux.score(yt, fh=list(range(1, max(fh) + 1))), lambda: direct.score(yt, fh=list(range(1, max(fh) + 1))))
+        if step < len(case["updates"]):
+            up, size = case["updates"][step]
+            batch = full.iloc[pos:pos + size]
+            pos += size
+            if step % 2:
+                compare("update_predict_single", lambda: mux.update_predict_single(batch.copy(), fh=fh, update_params=up, return_pred_int=True, alpha=alpha),
+                        lambda: direct.update_predict_single(batch.copy(), fh=fh, update_params=up, return_pred_int=True, alpha=alpha))
+            else:
+                compare("update", lambda: type(mux.update(batch.copy(), update_params=up)).__name__ and 0.0, lambda: type(direct.update(batch.copy(), update_params=up)).__name__ and 0.0)
+    ctx.event(kind="mux", members=[zoo.describe(m) for m in case["members"]], selected=sel, alpha=alpha, updates=case["updates"])
+    ctx.tag("mux:" + name)
+    ctx.nontrivial = True
 
 
 # ---------------------------------------------------------------------------------
